@@ -152,7 +152,7 @@ def run_job(job):
             if mode == "selftest":
                 return
             k = state["n"]
-            if (k - 1) % max(1, check.validate_every) != 0:
+            if (k - 1) % max(1, (params or {}).get("validate_every", check.validate_every)) != 0:
                 return
             inputs = symcore.model_inputs(m)
             try:
@@ -420,6 +420,8 @@ def finish(prop, mod, checks, results, tier, seed, t0, args):
         print(f"VIOLATION property={prop} replay={path}")
     for p in problems:
         print("INCONCLUSIVE:", p[:1500])
+    slow = sorted(results, key=lambda r: -r.get("wall_s", 0))[:3]
+    print("slowest jobs: " + "; ".join(f"{r['check']} {json.dumps(r['params'])} {r.get('wall_s')}s {(r.get('stats') or {}).get('paths', 0)}p" for r in slow))
     print(f"{prop} tier={tier}: {len(results)} jobs, {agg['paths']} paths, {agg['queries']} queries, "
           f"{agg['obligations']} obligations ({agg['discharged']} discharged), {validated} paths validated on the real stack, "
           f"solver {agg['solver_s']:.1f}s, wall {wall}s -> exit {rc}")
